@@ -2,7 +2,7 @@
    Models: Spec/Zone.v (zoneinfo's view of a tz-database zone), Model/TzConvert.v (Timezone.convert, DateTime.create).
    Every theorem holds for EVERY well-formed zone table and every wall value (no bound on instants or zones). *)
 From Coq Require Import ZArith Bool.
-From PV Require Import Lib.PyBase Spec.Cal Spec.Zone Proofs.ZoneFacts Proofs.ZoneWindow Model.TzConvert Proofs.C02Facts.
+From PV Require Import Lib.PyBase Spec.Cal Spec.Zone Proofs.ZoneFacts Proofs.ZoneWindow Proofs.ZoneGap Model.TzConvert Proofs.C02Facts.
 Open Scope Z_scope.
 
 (* PEP 495: every wall second is exactly one of unique / repeated (two instants, fold tells them apart) / skipped (no instant) *)
@@ -77,3 +77,13 @@ Theorem zone_window_irrelevance_fold : forall init pre mid post u acc,
   fold_utc_l init (pre ++ mid ++ post) u acc = fold_utc_l (last_off init pre) mid u false.
 Proof. exact window_irrelevance_fold. Qed.
 Print Assumptions zone_window_irrelevance_fold.
+
+(* "moved by the length of the gap": the amount off_local w 1 - off_local w 0 used by the construction rule is exactly the length of the
+   maximal interval of non-existent wall seconds around w *)
+Theorem gap_length_is_exact : forall z w, wf_zone z = true -> wall_skipped z w ->
+  let g := off_local z w true - off_local z w false in
+  exists a, a <= w < a + g /\
+    (forall w', a <= w' < a + g -> wall_skipped z w' /\ off_local z w' false = off_local z w false /\ off_local z w' true = off_local z w true) /\
+    ~ wall_skipped z (a + g) /\ ~ wall_skipped z (a - 1).
+Proof. exact gap_is_interval. Qed.
+Print Assumptions gap_length_is_exact.
